@@ -167,7 +167,7 @@ fn scenarios(tier: Tier) -> Vec<(Program, usize)> {
 
 fn prog_cfg(tier: Tier) -> ProgCfg {
     ProgCfg {
-        mix: OpMix { write: 10, abandon: 3, remove: 1, remove_hash: 1, remove_fully: 1, read: 1, ..OpMix::NONE },
+        mix: OpMix { write: 10, abandon: 3, cancel_commit: 3, remove: 1, remove_hash: 1, remove_fully: 1, read: 1, ..OpMix::NONE },
         wmix: WriteMix { bad_decls: true, meta: false, by_hash: true, rich_matching: false, interfere: false },
         sizes: SizeMix::Boundary,
         keys: (1, 3),
